@@ -576,7 +576,7 @@ Definition spec_map (e : entries) (m : meth) (args : list arg) : res value :=
         match kv with VStr k => bind (fm_put c k vv) (fun r => Ok (VMap r)) | _ => Err None end))
   | M_plus, [a] =>
       bind (arg_val a) (fun v => match v with
-                                 | VMap o => bind (fm_merge c (fm_canon o)) (fun r => Ok (VMap r))
+                                 | VMap o => bind (fm_merge c o) (fun r => Ok (VMap r))
                                  | _ => Err None
                                  end)
   | M_replace, [a] =>
@@ -805,9 +805,42 @@ Definition checker_verdict (s : src) (steps : list step) (out : value) : bool :=
   | None => true
   end.
 
+(* order / orderRev / orderLess as the LAST step on MORE than 12 items: the implementation sorts with
+   pdqsort proper, which neither model follows.  The property does not depend on the algorithm: the answer
+   must be a sorted permutation (check_order, proved correct), an error if the comparison fails on every
+   pair, and it must not be an error if the comparison is defined on every pair. *)
+Definition all_pairs_ok (lt : value -> value -> res bool) (l : list value) : bool :=
+  forallb (fun p => match lt (fst p) (snd p) with Ok _ => true | _ => false end) (list_prod l l).
+
+Definition sort_of_step (st : step) : option ((value -> value -> res bool) * (value -> value -> bool)) :=
+  match st with
+  | (M_order, [a]) => match arg_f1 a with Ok f => Some (lt_key f false, leb_key f false) | _ => None end
+  | (M_orderRev, [a]) => match arg_f1 a with Ok f => Some (lt_key f true, leb_key f true) | _ => None end
+  | (M_orderLess, [a]) => match arg_f2 a with Ok f => Some (fun x y => d_bool (f x y), leb_less f) | _ => None end
+  | _ => None
+  end.
+
+Definition long_sort_verdict (s : src) (steps : list step) (o : obs) : option bool :=
+  if existsb (fun st => is_pseudo (fst st)) steps then None else
+  match split_last steps with
+  | Some (ini, last) =>
+      match sort_of_step last, bind (spec_src s) (fun v => spec_steps false v ini) with
+      | Some (lt, le_), Ok (VList inp) =>
+          if Nat.ltb 12 (length inp) then
+            if all_pairs_ok lt inp then
+              Some (match o with OOk (VList w) => check_order val_eqb le_ inp w | _ => false end)
+            else if all_pairs_fail lt inp then Some (match o with OFail => true | _ => false end)
+            else None
+          else None
+      | _, _ => None
+      end
+  | None => None
+  end.
+
 (* the implementation's answer satisfies the specification side *)
 Definition c07_is (c : c07_case) : bool :=
   let '(_, s, steps, un, o) := c in
+  match long_sort_verdict s steps o with Some b => b | None =>
   match run_spec s steps, o with
   | Ok v, OOk w => if ends_in_observe steps then same_bundle v w
                    else same_val un v w && checker_verdict s steps w
@@ -818,7 +851,7 @@ Definition c07_is (c : c07_case) : bool :=
   | Panic, _ => false
   | Unsup, OPanic | OOF, OPanic => false            (* a panic is never acceptable *)
   | Unsup, _ | OOF, _ => true
-  end.
+  end end.
 
 (* finding signature support: nothing is computed here, the harness names built-in and boundary class *)
 
